@@ -858,7 +858,7 @@ func ruleReverseScanRecoversFromDeleted(c *eng.Ctx) {
 	eng.Instrs(fn, func(in ssa.Instruction) {
 		switch x := in.(type) {
 		case *ssa.Return:
-			for _, r := range x.Results {
+			for _, r := range eng.RetVals(x) {
 				if isRep(r) {
 					site = in
 				}
